@@ -410,7 +410,7 @@ def run_t1(run, c):
     img = unhex(c['image'])
     hr0 = unhex(c['hr'])[0]
     size = (img[10] + 1) * 8
-    bound = 20
+    bound = 54          # t1_wire_max: RALL, READ8, 16 x RSEG, each sent up to three times
     if 'n1' in o and o['n1'] > bound:
         ck.violation('t1:unbounded:commands', 't1: tag.ndef sent %d commands (bound %d)' % (o['n1'], bound), c)
     view = (img + bytes(2048))[:2048] if c['beyond'] == 'zeros' else img[:2048]
@@ -706,6 +706,39 @@ def run_raw(run, c):
             x = o.get(k)
             if x and (x['length'] > x['capacity'] or x['length'] != len(x['octets'])):
                 ck.violation(kind + ':unsound:length>capacity', '%s: ndef.length %d exceeds ndef.capacity %d' % (kind, x['length'], x['capacity']), c)
+    # monitor: the octets are the content of the data area of the image the answers built (own reconstruction from the log)
+    if o and o.get('x1'):
+        view = bytearray()
+        for cmd, r in clf.log[:o['n1']]:
+            if not r.startswith('rx:'):
+                continue
+            rsp = bytes.fromhex(r[3:])
+            if tech == 't2' and cmd[:1] == b'\x30' and len(rsp) == 16:
+                view += rsp
+            elif tech == 't1' and cmd[:1] == b'\x00' and len(rsp) >= 2:
+                view = bytearray(rsp[2:])
+            elif tech == 't1' and cmd[:1] == b'\x02':
+                view[120:128] = rsp[1:9]
+            elif tech == 't1' and cmd[:1] == b'\x10' and len(rsp) >= 129:
+                view += rsp[1:129]
+        if tech == 't2' and len(view) > 14:
+            monitor_tlv(ck, kind, c, o['x1'], bytes(view), 16, 16 + 8 * view[14])
+        if tech == 't1' and len(view) > 10:
+            monitor_tlv(ck, kind, c, o['x1'], bytes(view), 12, (view[10] + 1) * 8)
+    # the command layer against the loader model (Model/TagLoad.v): result of the first read and the exact frames
+    if tag is not None and o is not None and not o['r1'].startswith('exc'):
+        script = ','.join(r for _, r in clf.log) or '-'
+        sent = ','.join(hexarg(cmd) for cmd, _ in clf.log[:o['n1']]) or '-'
+
+        def chk(out, o=o, sent=sent):
+            st, ms = out.split(' | sent=')
+            st = ' '.join(st.split()[:5]) if st.startswith('ndef') else st
+            if st != o['r1'] or ms != sent:
+                run.mismatch(kind + '-load', c, '%s | sent=%s' % (o['r1'], sent), out)
+        if tech == 't2':
+            run.model('t2resp ' + script, chk)
+        else:
+            run.model('t1resp %s %s' % (hexarg(tag.uid), script), chk)
     ck.case((kind, json.dumps(c, sort_keys=True)), True)
 
 
@@ -983,6 +1016,11 @@ CORPUS = [
      'script': ['067577810280', 'f2'], 'tail': None},
     {'kind': 'raw', 'tech': 't1', 'target': {'brty': '106A', 'sens_res': '000c', 'rid_res': '114801020304'},
      'script': ['', '00' * 129], 'tail': None},          # RALL answered with an empty frame, then RSEG answered
+    # RALL answered with 20 bytes (NDEF TLV 03 FF 00 0A in a data area 12..24), the second RALL the old reader issued answered
+    # with 03 0A at the same place, then RSEG: octets EE EF read from addresses 24, 25 (fixes/c08-18)
+    {'kind': 'raw', 'tech': 't1', 'target': {'brty': '106A', 'sens_res': '000c', 'rid_res': '114801020304'},
+     'script': ['11480102030405060700e110020003ff000aa0a1', '11480102030405060700e1100200030a000aa0a1',
+                '00b0b1b2b3b4b5eeef' + '00' * 120], 'tail': None},
     {'kind': 't3', 'blocks': (t3_attr(0x10, 0, 4, 4, 0, 1, 10) + bytes(64)).hex(), 'idm': '0102030405060708', 'pmm': 'ffffffffffffffff',
      'sensf': None, 'sys_in_sensf': True, 'max_read': 15, 'beyond': 'status', 'poll': True, 'stop': None, 'mode': 'timeout'},
     {'kind': 't3', 'blocks': (t3_attr(0x10, 4, 4, 1, 0, 1, 64) + bytes(128)).hex(), 'idm': '0102030405060708', 'pmm': 'ffffffffffffffff',
@@ -1039,13 +1077,13 @@ def main():
                   'including its reference memory loaders (number of read commands for a given demand)']
     ck.assumptions = ['the activation responses reach nfc.tag.activate with the lengths the drivers guarantee: SENS_RES 2 bytes, '
                       'SEL_RES 1 byte, SDD_RES at least 1 byte, SENSF_RES at least 17 bytes; everything else is arbitrary',
-                      'Type 1/2: a read command that is answered is answered with a frame of the length the command defines '
-                      '(RALL 122, READ8 9, RSEG 129, READ 16 bytes or a 1 byte NAK) with arbitrary content; frames of other '
-                      'lengths are exercised by the monitor only (raw answer scripts), not by the model',
+                      'Type 1/2: theorems at two levels - over memory images (em) and over scripts of exchange() outcomes of any '
+                      'length (Model/TagLoad.v, the command layer); the sense() call after a Type 2 NAK is not modelled (it only '
+                      'selects the errno); the second read of has_changed on raw answer scripts is covered by the monitor only',
                       'Type 4: the theorems are about the reader above IsoDepInitiator.exchange (whole APDUs answered or failed); '
                       'the block layer is covered by C12 (termination for a responder that uses at most W waiting time extensions / '
                       'chained blocks per exchange) plus the WTX-without-WTXM repair modelled in TagReadAnyB.pcd_absorb_any']
-    ck.coq(gen=[], targets=['Proofs/TagSafeAct.vo', 'Proofs/TagSafeTlv.vo', 'Proofs/TagSafeCmd.vo', 'Proofs/TagSafeIface.vo', 'Proofs/TagSafeBlk.vo', 'Proofs/TagSafeDep.vo'], props='C08')
+    ck.coq(gen=[], targets=['Proofs/TagSafeAct.vo', 'Proofs/TagSafeTlv.vo', 'Proofs/TagSafeCmd.vo', 'Proofs/TagSafeLoad.vo', 'Proofs/TagSafeIface.vo', 'Proofs/TagSafeBlk.vo', 'Proofs/TagSafeDep.vo'], props='C08')
     mr = ck.model()
     if mr is None:
         ck.finish()
@@ -1171,9 +1209,14 @@ def main():
         't3': {'brty': '212F', 'sensf_res': '010102030405060708ffffffffffffffff12fc'},
         't4': {'brty': '106A', 'sens_res': '4403', 'sel_res': '20', 'sdd_res': '04832F9A272D80'},
     }
+    img1 = t1_image([0xE1, 0x10, 0x3F, 0], [3, 255, 1, 40] + list(rb(rng, 296)) + [0xFE], 512)
+    img2 = t2_image([0xE1, 0x10, 0x86, 0], [0] * 990 + [3, 40] + list(rb(rng, 40)) + [0xFE], 1088)
     good = {
         't1': [bytes([0x11, 0x48]) + t1_image([0xE1, 0x10, 0x0E, 0], [3, 3, 0xD0, 0, 0, 0xFE], 120)],
+        't1b': [bytes([0x12, 0x4C]) + img1[:120], b'\x0f' + img1[120:128], b'\x10' + img1[128:256], b'\x20' + img1[256:384],
+                b'\x30' + img1[384:512]],
         't2': [t2_image([0xE1, 0x10, 6, 0], [3, 3, 0xD0, 0, 0, 0xFE], 64)[i:i + 16] for i in (0, 16, 32, 48)],
+        't2b': [img2[i:i + 16] for i in range(0, 1024, 16)] + [b'\x0a', None] + [img2[i:i + 16] for i in range(1024, 1088, 16)],
         't3': [bytes([29, 7]) + bytes.fromhex('0102030405060708') + bytes([0, 0, 1]) + t3_attr(0x10, 1, 1, 2, 0, 1, 20),
                bytes([29, 7]) + bytes.fromhex('0102030405060708') + bytes([0, 0, 1]) + bytes(16),
                bytes([29, 7]) + bytes.fromhex('0102030405060708') + bytes([0, 0, 1]) + bytes(16)],
@@ -1181,6 +1224,34 @@ def main():
                b'\x03' + t4_cc(0x20, 59, 52, bytes([4, 6, 0xE1, 0x04, 0, 64, 0, 0]))[2:] + b'\x90\x00', b'\x02\x90\x00',
                b'\x03\x00\x03\x90\x00', b'\x02\xd0\x00\x00\x90\x00'],
     }
+
+    def enc(b):
+        return None if b is None else b.hex()
+    for tech, fam in (('t1', 't1b'), ('t2', 't2b')):
+        base = good[fam]
+        go({'kind': 'raw', 'tech': tech, 'target': targets[tech], 'script': [enc(b) for b in base], 'tail': None})
+        for _ in range(150 if quick else 2500):
+            k = rng.randrange(len(base))
+            g = base[k] if base[k] is not None else b'\x0a'
+            r = rng.random()
+            if r < 0.3:
+                m = g[:rng.randrange(0, len(g))]
+            elif r < 0.5:
+                m = g + rb(rng, rng.choice([1, 2, 16, 128]))
+            elif r < 0.7:
+                i = rng.randrange(len(g))
+                m = g[:i] + bytes([rng.getrandbits(8)]) + g[i + 1:]
+            elif r < 0.85:
+                m = rng.choice([None, 'txerr', b'', b'\x00', b'\x0a', b'\x01', rb(rng, 16), rb(rng, 122), rb(rng, 129), rb(rng, 9)])
+            else:
+                m = g
+            script = [enc(b) for b in base[:k]] + [m if isinstance(m, str) or m is None else m.hex()]
+            rest = [enc(b) for b in base[k + 1:]]
+            if rng.random() < 0.5:
+                rest = rest[rng.randrange(0, len(rest) + 1):]
+            if rng.random() < 0.3 and tech == 't2' and k < len(base):
+                script = script[:-1] + [rng.choice([None, 'txerr']), rng.choice([None, 'txerr', enc(base[k])]), enc(base[k])]    # retries
+            go({'kind': 'raw', 'tech': tech, 'target': targets[tech], 'script': script + rest, 'tail': rng.choice([None, None, 'txerr', ''])})
     for tech in ('t1', 't2', 't3', 't4'):
         for _ in range(300 if quick else 4000):
             base = list(good[tech])
